@@ -626,7 +626,7 @@ where
             None => None,
         };
         #[cfg(feature = "verif")]
-        self.verif_step(crate::verif::Step::Scheduled { machine: mi });
+        self.verif_step(crate::verif::Step::Scheduled { machine: mi, state });
     }
 
     fn decrement_limit(&mut self, mi: usize) {
